@@ -20,6 +20,8 @@ GUARD_KERNELS = True
 SHRINK_LISTS = ()
 SHRINK_MIN = {"nchans": 1, "nbits": 1, "gulp": 1, "tfactor": 1, "ffactor": 1, "nsub": 1, "batch_size": 1, "chanpersub": 2}
 WRITERS = T.NAMES + ["clean_rfi", "to_file", "to_tim", "to_spec"]
+# one execution = a whole enumeration of fault points: keep minimisation cheap
+SHRINK_EXECS, SHRINK_PER_CLASS, SHRINK_TOTAL, SHRINK_SECONDS = 24, 2, 4, 40
 
 
 def warm() -> None:
